@@ -8,7 +8,7 @@ import json
 from . import cases as casemod
 from . import replay, tlc
 
-MODULE_CONSTS = {"Trace_Obs": {"MCMode": "off", "OptNames": "{}", "MBLayouts": "{}", "MBRecs": "{}", "IOReqs": "{}", "IOShape": "{}"}}
+MODULE_CONSTS = {"Trace_Obs": {"MCMode": "off", "OptNames": "{}", "MBLayouts": "{}", "MBRecs": "{}", "IOReqs": "{}", "IOShape": "{}", "NNames": "{}", "NDescs": "{}", "NCfgs": "{}", "RNodes": "{}", "RMode": "off"}}
 ALL = replay.ALL_ACTS
 NO_INDEX = [a for a in ALL if a != "Index"]
 
@@ -80,6 +80,22 @@ CORPORA = {
                                excl=EXCL_DEEP),
     "d2-persist-follow2": dict(acts=["Persist"], acts2=ALL, maxlen=2, preset="lean2", sim=False, lean=True, workers=8, excl=EXCL_DEEP),
     "d2-persist-follow3": dict(acts=["Persist"], acts2=ALL, maxlen=2, preset="lean3", sim=False, lean=True, workers=8, excl=EXCL_DEEP),
+    # every reduction x keepdims x split_every over the 1-D sources (neighbours differ only in split_every / keepdims)
+    "d1-reduce-1d": dict(acts=["Reduce", "ArgReduce"], maxlen=1, preset="1d", sim=False, emit_all=True),
+    "d1-reduce-1d7": dict(acts=["Reduce", "ArgReduce"], maxlen=1, preset="1d7", sim=False, emit_all=True,
+                          keep=lambda b: b["prog"][1].get("op") in ("sum", "max", "mean", "argmax", "var") and not b["prog"][1].get("keepdims")
+                          and b["prog"][0]["shape"][0] >= 6),
+    "d1-reduce-2d": dict(acts=["Reduce", "ArgReduce"], maxlen=1, preset="2d", sim=False, emit_all=True),
+    # random arrays: bases, and every lean operation on a random base (C06, C07, C23)
+    "d1-random": dict(acts=["Random"], maxlen=1, preset="lean1", sim=False, lean=False, emit_all=True),
+    "d2-random": dict(acts=["Random"], acts2=ALL, maxlen=2, preset="lean1", sim=False, lean=True, workers=8, excl=EXCL_DEEP),
+    "d3-random": dict(acts=["Random"], acts2=["Index", "Elemwise", "Transpose", "Reduce"],
+                      acts3=["Index", "Elemwise", "Rechunk", "Reduce"], maxlen=3, preset="lean1", sim=False, lean=True,
+                      workers=8, excl=EXCL_DEEP),
+    # TLC simulation (fixed seed -> a fixed corpus): deep programs with sharing between a random base and other collections
+    "sim-random": dict(acts=["Random", "Elemwise", "Reduce", "Index", "Transpose", "Rechunk", "Unary"], maxlen=6, preset="small", sim=True,
+                       num=4000, seed=11, lean=True, depth=9),
+    "sim-random-share": dict(acts=["Random", "Elemwise", "Reduce"], maxlen=7, preset="rnd", sim=True, num=8000, seed=12, lean=True, depth=10),
     # in-place histories: derive, mutate in place, derive (C11, C04)
     "d3-inplace-dmd": dict(acts=DERIVE, acts2=MUTATE, acts3=DERIVE, maxlen=3, preset="lean1", sim=False, lean=True, workers=4),
     "d3-inplace-mdm": dict(acts=MUTATE, acts2=DERIVE, acts3=MUTATE, maxlen=3, preset="lean1", sim=False, lean=True, workers=4),
@@ -202,7 +218,7 @@ def run_plans(chk, rd, plans, observers, *, opts=None, module="Trace_Obs", shard
     for cid, clause in rejects:
         e = by_id[cid]
         st = stats[e["corpus"]]
-        if accept_verdict is not None and accept_verdict(clause):
+        if clause.startswith("ok-") or (accept_verdict is not None and accept_verdict(clause)):
             st["accepted_special"][clause] = st["accepted_special"].get(clause, 0) + 1
             continue
         chk.violation(dict(e, **(refs[cid] or {})), clause)
@@ -220,7 +236,7 @@ def run_plans(chk, rd, plans, observers, *, opts=None, module="Trace_Obs", shard
             raise tlc.MachineryError("binding self-test did not run (no observation to corrupt)")
         rej, _ = casemod.validate(module, bad, rd, f"{chk.pid}-selftest", shards=2, timeout=900, heap="2g",
                                   consts=MODULE_CONSTS.get(module))
-        got = {cid for cid, cl in rej if not (accept_verdict is not None and accept_verdict(cl))}
+        got = {cid for cid, cl in rej if not (cl.startswith("ok-") or (accept_verdict is not None and accept_verdict(cl)))}
         want = {b["id"] for b in bad}
         if got != want:
             raise tlc.MachineryError(f"binding self-test failed: {len(got)} of {len(want)} corrupted observations rejected")
@@ -261,7 +277,7 @@ def replay_case(chk, path, observers, module="Trace_Obs", opts=None, accept_verd
     chk.sample({"prog": case["prog"]})
     by_id = {e["id"]: e for e in evs}
     for cid, clause in rejects:
-        if accept_verdict is not None and accept_verdict(clause):
+        if clause.startswith("ok-") or (accept_verdict is not None and accept_verdict(clause)):
             continue
         chk.violation(dict(by_id[cid], prog=case["prog"], grids=case["grids"], env=beh["env"]), clause)
     return chk.finish()
